@@ -1408,12 +1408,34 @@ fn parse_vars(exprs: &[&Vec<SExpr>], _lsp_hints: &mut LspHints) -> Result<HashMa
                 .definition_locations
                 .variable
                 .insert(var_name.to_owned(), var_name_expr.span());
-            if vars.insert(var_name.into(), var_expr).is_some() {
+            if vars.contains_key(var_name.as_str()) {
                 bail_expr!(var_name_expr, "duplicate variable name: {}", var_name);
             }
+            if var_refers_to(&var_expr, var_name, &vars) {
+                bail_expr!(
+                    var_name_expr,
+                    "variable refers to itself: {}\nResolving it would never end.",
+                    var_name
+                );
+            }
+            vars.insert(var_name.into(), var_expr);
         }
     }
     Ok(vars)
+}
+
+/// Returns true if `expr` mentions `$name`, directly or through the variables it refers to.
+/// Relies on `vars` being free of reference cycles, which `parse_vars` maintains by rejecting
+/// every variable for which this returns true.
+fn var_refers_to(expr: &SExpr, name: &str, vars: &HashMap<String, SExpr>) -> bool {
+    match expr {
+        SExpr::Atom(a) => match a.t.strip_prefix('$') {
+            Some(n) if n == name => true,
+            Some(n) => vars.get(n).is_some_and(|v| var_refers_to(v, name, vars)),
+            None => false,
+        },
+        SExpr::List(l) => l.t.iter().any(|e| var_refers_to(e, name, vars)),
+    }
 }
 
 fn parse_list_var(expr: &Spanned<Vec<SExpr>>, vars: &HashMap<String, SExpr>) -> SExpr {
